@@ -64,6 +64,7 @@ type ItemResult struct {
 }
 
 type worker struct {
+	race     *raceWatcher
 	h        Harness
 	tier     string
 	cfgs     []Config
@@ -87,6 +88,7 @@ func (w *worker) process(it Item) ItemResult {
 			return
 		}
 		out, res, c := execOnce(w.h, cfg, devs, false)
+		out.Violations = append(out.Violations, w.race.poll()...)
 		if c.diverged != "" {
 			r.Machinery = fmt.Sprintf("cfg %s: %s", cfg.Name, c.diverged)
 			stop = true
@@ -141,7 +143,18 @@ func (w *worker) process(it Item) ItemResult {
 				r.Known[v.Class]++
 				continue
 			}
-			vr := w.confirm(cfg, it.Cfg, devs, v)
+			if strings.HasPrefix(v.Class, "race-in-harness:") {
+				r.Machinery = fmt.Sprintf("cfg %s: %s\n%s", cfg.Name, v.Class, v.Msg)
+				stop = true
+				return
+			}
+			var vr VioRec
+			if strings.HasPrefix(v.Class, "race:") {
+				// the detector reports each race once per process: no re-run
+				vr = VioRec{Cfg: it.Cfg, CfgName: cfg.Name, Devs: devs, Class: v.Class, Msg: v.Msg, Stable: true}
+			} else {
+				vr = w.confirm(cfg, it.Cfg, devs, v)
+			}
 			r.Violations = append(r.Violations, vr)
 			if len(r.Violations) >= w.maxVio {
 				stop = true
@@ -260,6 +273,8 @@ func Main(h Harness) {
 		only     = flag.String("only", "", "only configurations whose name contains this")
 		maxBound = flag.Int("maxbound", -1, "override deviation bound")
 		list     = flag.Bool("list", false, "list configurations")
+		racepass = flag.Bool("racepass", false, "this is the -race build: collect race detector reports per execution")
+		racelog  = flag.String("racelog", "", "GORACE log_path prefix")
 	)
 	flag.Parse()
 	if err := vrt.SelfTest(); err != nil {
@@ -281,19 +296,23 @@ func Main(h Harness) {
 			known[k.Class] = true
 		}
 	}
+	if *racepass && !vrt.RaceMode {
+		fmt.Fprintln(os.Stderr, "MACHINERY: -racepass needs a -race build")
+		os.Exit(2)
+	}
 	if *isWorker {
-		runWorker(h, *tier, cfgs, known)
+		runWorker(h, *tier, cfgs, known, *racelog)
 		return
 	}
 	if *replay != "" {
 		os.Exit(doReplay(h, cfgs, *replay))
 	}
-	d := &driver{h: h, tier: *tier, cfgs: cfgs, known: knownList, evidence: *evidence, replays: *replays, procs: *procs, budget: *budget, only: *only, maxBound: *maxBound, knownFile: *knownF}
+	d := &driver{racelog: *racelog, h: h, tier: *tier, cfgs: cfgs, known: knownList, evidence: *evidence, replays: *replays, procs: *procs, budget: *budget, only: *only, maxBound: *maxBound, knownFile: *knownF}
 	os.Exit(d.run())
 }
 
-func runWorker(h Harness, tier string, cfgs []Config, known map[string]bool) {
-	w := &worker{h: h, tier: tier, cfgs: cfgs, known: known, maxVio: 3, obsLimit: 2000}
+func runWorker(h Harness, tier string, cfgs []Config, known map[string]bool, racelog string) {
+	w := &worker{h: h, tier: tier, cfgs: cfgs, known: known, maxVio: 3, obsLimit: 2000, race: newRaceWatcher(racelog)}
 	in := bufio.NewReaderSize(os.Stdin, 1<<20)
 	out := bufio.NewWriter(os.Stdout)
 	dec := json.NewDecoder(in)
@@ -337,6 +356,7 @@ func runWorker(h Harness, tier string, cfgs []Config, known map[string]bool) {
 }
 
 type driver struct {
+	racelog   string
 	h         Harness
 	tier      string
 	cfgs      []Config
@@ -437,6 +457,9 @@ func (d *driver) run() int {
 			var p *wproc
 			startProc := func() error {
 				args := []string{"-worker", "-tier", d.tier}
+				if d.racelog != "" {
+					args = append(args, "-racepass", "-racelog", d.racelog)
+				}
 				if d.knownFile != "" {
 					args = append(args, "-known", d.knownFile)
 				}
